@@ -13,6 +13,7 @@ import (
 	"github.com/gorilla/websocket"
 
 	"go.nanomsg.org/mangos/v3"
+	"go.nanomsg.org/mangos/v3/protocol"
 	"go.nanomsg.org/mangos/v3/verifsim/simrt"
 )
 
@@ -847,4 +848,113 @@ func c16Real(w *W) {
 
 func init() {
 	register(&Scenario{Name: "hostile-peers-real-transports", Prop: "C16", Engine: "R", Weight: 1, Run: c16Real})
+}
+
+// impostorProto is a real protocol implementation that announces other
+// protocol numbers than its own (inproc has no wire handshake: the transport
+// compares the two sockets' announced numbers).
+type impostorProto struct {
+	mangos.ProtocolBase
+	self, peer uint16
+}
+
+func (p *impostorProto) Info() mangos.ProtocolInfo {
+	i := p.ProtocolBase.Info()
+	i.Self, i.Peer = p.self, p.peer
+	return i
+}
+
+// c16Inproc: a peer that announces the wrong protocol - in either direction,
+// or both - is not admitted over inproc either, whichever side dials; a
+// conforming peer still is.
+func c16Inproc(w *W) {
+	kind := allKinds[w.Choose(simrt.SShape, len(allKinds))]
+	w.SetShape("kind", kind)
+	w.SetShape("tran", "inproc")
+	s := w.Sock(kind)
+	defer s.Close()
+	attached := 0
+	s.SetPipeEventHook(func(ev mangos.PipeEvent, p mangos.Pipe) {
+		if ev == mangos.PipeEventAttached {
+			attached++
+		}
+	})
+	me, pk := protoOf(kind), protoOf(peerKind[kind])
+	addr := w.Addr("inproc")
+	if err := s.Listen(addr); err != nil {
+		w.Failf("HARNESS/listen", "%v", err)
+		return
+	}
+	cases := []struct {
+		what       string
+		self, peer uint16
+	}{
+		{"announces another protocol of its own but the right peer", 0x7770, me},
+		{"announces the right protocol of its own but expects another peer", pk, 0x7770},
+		{"announces other numbers in both directions", 0x7770, 0x7771},
+	}
+	for i := 0; i < 3 && !w.Failed(); i++ {
+		c := cases[w.Choose(simrt.SProg, len(cases))]
+		imp := protocol.MakeSocket(&impostorProto{ProtocolBase: protoCtors[peerKind[kind]](), self: c.self, peer: c.peer})
+		w.socks = append(w.socks, imp)
+		before := attached
+		w.Fault("hs-corrupt")
+		if w.Choose(simrt.SProg, 2) == 0 {
+			w.Op("an inproc peer that %s (%#x/%#x) dials the %s socket", c.what, c.self, c.peer, kind)
+			call := w.Do("impostor.Dial", func() (interface{}, error) {
+				return nil, imp.DialOptions(addr, map[string]interface{}{mangos.OptionDialAsynch: false})
+			})
+			if !call.Wait(time.Second) {
+				w.Failf("C12/call-never-returns:Dial", "a synchronous inproc Dial by a peer with the wrong protocol numbers does not return")
+				return
+			}
+			if call.Err == nil {
+				w.Failf("C16/bad-handshake-accepted:"+kind, "inproc: a peer that %s (self %#x, peer %#x) dialled a %s socket (self %#x, peer %#x) and Dial succeeded", c.what, c.self, c.peer, kind, me, pk)
+				return
+			}
+		} else {
+			ia := w.Addr("inproc")
+			if err := imp.Listen(ia); err != nil {
+				w.Failf("HARNESS/listen", "%v", err)
+				return
+			}
+			w.Op("the %s socket dials an inproc listener that %s (%#x/%#x)", kind, c.what, c.self, c.peer)
+			call := w.Do("Dial(impostor)", func() (interface{}, error) {
+				return nil, s.DialOptions(ia, map[string]interface{}{mangos.OptionDialAsynch: false})
+			})
+			if !call.Wait(time.Second) {
+				w.Failf("C12/call-never-returns:Dial", "a synchronous inproc Dial to a listener with the wrong protocol numbers does not return")
+				return
+			}
+			if call.Err == nil {
+				w.Failf("C16/bad-handshake-accepted:"+kind, "inproc: a %s socket (self %#x, peer %#x) dialled a listener that %s (self %#x, peer %#x) and Dial succeeded", kind, me, pk, c.what, c.self, c.peer)
+				return
+			}
+		}
+		w.Sleep(time.Millisecond)
+		w.Settle()
+		if attached != before {
+			w.Failf("C16/bad-handshake-accepted:"+kind, "inproc: the %s socket attached a pipe to a peer that %s", kind, c.what)
+			return
+		}
+		imp.Close()
+	}
+	good := w.Sock(peerKind[kind])
+	defer good.Close()
+	if err := good.Dial(addr); err != nil {
+		w.Failf("C16/conforming-peer-not-attached", "inproc: after peers with wrong protocol numbers a conforming %s peer cannot dial the %s socket: %v", peerKind[kind], kind, err)
+		return
+	}
+	w.Sleep(time.Millisecond)
+	w.Settle()
+	if attached == 0 {
+		w.Failf("C16/conforming-peer-not-attached", "inproc: a conforming peer dialled the %s socket but nothing was attached", kind)
+		return
+	}
+	w.Probe("inproc-wrong-protocol-refused")
+	w.Delivery++
+}
+
+func init() {
+	register(&Scenario{Name: "inproc-protocol-numbers", Prop: "C16", Horizon: time.Hour, Weight: 3, Run: c16Inproc})
 }
